@@ -2,7 +2,7 @@
    the existing rules keep their relative order, enabled flags, functions and
    chains; the new rule sits immediately before / after the FIRST rule named
    by the reference (duplicates allowed), or at the end. *)
-From MD Require Import Base.Py Model.Ruler.
+From MD Require Import Base.Py Model.Ruler Lemmas.RulerSets.
 
 Section Order.
 Context {F : Type}.
@@ -114,6 +114,23 @@ Proof.
   rewrite compile_chain_app. f_equal.
   unfold compile_chain. cbn [filter renabled andb].
   destruct (in_chain c (mkRule name true fn alt)); reflexivity.
+Qed.
+
+(* enable / disable are idempotent - rules, cache and the value returned (or
+   the exception raised) are the same the second time *)
+Lemma mark_mark v P (x : rule) : mark v P (mark v P x) = mark v P x.
+Proof.
+  unfold mark. destruct (mem_str (rname x) P) eqn:E; simpl; [|rewrite E; reflexivity].
+  rewrite E. reflexivity.
+Qed.
+
+Theorem toggle_idempotent v names ign (r : ruler) :
+  NoDup (all_names r) ->
+  toggle v names ign (fst (toggle v names ign r)) = toggle v names ign r.
+Proof.
+  intros ND. rewrite (toggle_sets v names ign r ND). cbn [fst].
+  rewrite toggle_sets; unfold all_names; cbn [rules]; rewrite map_mark_names; [|exact ND].
+  rewrite map_map. f_equal. f_equal. apply map_ext. intros x. apply mark_mark.
 Qed.
 
 End Order.
